@@ -80,8 +80,8 @@ Lemma loop_run_pstops : forall beh envs st k t,
   nth_error (snd (loop_run beh envs st)) k = Some t -> ti_pstop t = phase k.
 Proof.
   intros beh envs st k t. unfold loop_run.
-  pose proof (run_go_pstops beh envs run_start (set_stop false st) k t) as H.
-  destruct (run_go beh envs run_start (set_stop false st)) as [st' tis]. cbn in *.
+  pose proof (run_go_pstops beh envs (run_start_of st) (set_stop false st) k t) as H.
+  destruct (run_go beh envs (run_start_of st) (set_stop false st)) as [st' tis]. cbn in *.
   intros Hk. rewrite (H Hk). apply iter_next_phase.
 Qed.
 
